@@ -108,7 +108,7 @@ func (o *Obligation) getModel(extra func(scalars map[string]string) []heapReq) (
 	// prefer small inputs: bound every slice length first, relax if that is unsatisfiable
 	var lens []string
 	for _, n := range names {
-		if strings.HasSuffix(strings.Trim(n, "|"), "#len") {
+		if strings.HasSuffix(strings.Trim(n, "|"), "#len") || strings.HasSuffix(strings.Trim(n, "|"), "#len@long") {
 			lens = append(lens, n)
 		}
 	}
@@ -800,7 +800,52 @@ func (r *Run) replaySourceLaw(fi *FuncInfo, p replayPlan) string {
 			fmt.Fprintf(&sb, "\t\tif s_%s != nil && !reflect.DeepEqual(*s_%s, *l_%s) { fmt.Printf(\"REPRODUCED object %s differs: short %%+v long %%+v\\n\", *s_%s, *l_%s) }\n", a, a, a, a, a, a)
 		}
 	}
-	sb.WriteString("\t}\n\tfmt.Println(\"REPLAY finished; short run:\"")
+	sb.WriteString("\t}\n")
+	// RES: if the short run suspended, resume it on the long buffer (same object, returned offset) and compare
+	// with the one-shot long run
+	offsArg := ""
+	for i, n := range fi.PNames {
+		if n == "offs" || n == "o" {
+			offsArg = p.callArg[i]
+		}
+	}
+	if vc >= 0 && offsArg != "" && len(fi.RNames) > 0 {
+		fmt.Fprintf(&sb, "\tif s_r%d == ErrHdrMoreBytes {\n", vc)
+		var args []string
+		for i, a := range p.callArg {
+			switch {
+			case a == p.lawBuf:
+				args = append(args, p.lawBuf)
+			case a == offsArg:
+				args = append(args, "s_r0")
+			default:
+				if _, ok := fi.PTypes[i].Underlying().(*types.Pointer); ok {
+					args = append(args, "s_"+a)
+				} else {
+					args = append(args, a)
+				}
+			}
+		}
+		var lhs []string
+		for k := range fi.RNames {
+			lhs = append(lhs, fmt.Sprintf("c_r%d", k))
+		}
+		call := fmt.Sprintf("%s(%s)", fi.Key, strings.Join(args, ", "))
+		if mm := methKeyRe.FindStringSubmatch(fi.Key); mm != nil {
+			call = fmt.Sprintf("%s.%s(%s)", args[0], mm[3], strings.Join(args[1:], ", "))
+		}
+		fmt.Fprintf(&sb, "\t\t%s := %s\n", strings.Join(lhs, ", "), call)
+		for k := range fi.RNames {
+			fmt.Fprintf(&sb, "\t\tif !reflect.DeepEqual(c_r%d, l_r%d) { fmt.Println(\"REPRODUCED resumed result %d differs from the one-shot result:\", c_r%d, l_r%d) }\n", k, k, k, k, k)
+		}
+		for i, a := range p.callArg {
+			if _, ok := fi.PTypes[i].Underlying().(*types.Pointer); ok && a != p.lawBuf {
+				fmt.Fprintf(&sb, "\t\tif s_%s != nil && !reflect.DeepEqual(*s_%s, *l_%s) { fmt.Printf(\"REPRODUCED resumed object %s differs: resumed %%+v one-shot %%+v\\n\", *s_%s, *l_%s) }\n", a, a, a, a, a, a)
+			}
+		}
+		sb.WriteString("\t}\n")
+	}
+	sb.WriteString("\tfmt.Println(\"REPLAY finished; short run:\"")
 	for k := range fi.RNames {
 		fmt.Fprintf(&sb, ", s_r%d", k)
 	}
